@@ -1,0 +1,89 @@
+//! Verification hooks (cargo feature `verif-hooks`, off by default).
+//!
+//! Nothing in here changes what `ska` computes. With the feature on and the
+//! environment variables below unset, every function returns immediately.
+//!
+//! - `SKA_VERIF_LOG=<path>`: append one line per event to `<path>`.
+//! - `SKA_VERIF_JITTER=<seed>:<max_us>`: sleep a pseudo-random time (a pure
+//!   function of seed, site and item) at every [`point()`], to perturb the
+//!   schedule of parallel regions in a replayable way.
+use std::fs::{File, OpenOptions};
+use std::io::Write;
+use std::sync::atomic::{AtomicU64, Ordering};
+use std::sync::{Mutex, OnceLock};
+
+static LOG: OnceLock<Option<Mutex<File>>> = OnceLock::new();
+static JITTER: OnceLock<Option<(u64, u64)>> = OnceLock::new();
+static SEQ: AtomicU64 = AtomicU64::new(0);
+
+fn log_file() -> &'static Option<Mutex<File>> {
+    LOG.get_or_init(|| {
+        std::env::var("SKA_VERIF_LOG").ok().map(|path| {
+            Mutex::new(
+                OpenOptions::new()
+                    .create(true)
+                    .append(true)
+                    .open(path)
+                    .expect("SKA_VERIF_LOG cannot be opened"),
+            )
+        })
+    })
+}
+
+fn jitter() -> &'static Option<(u64, u64)> {
+    JITTER.get_or_init(|| {
+        let spec = std::env::var("SKA_VERIF_JITTER").ok()?;
+        let (seed, max_us) = spec.split_once(':')?;
+        Some((seed.parse().ok()?, max_us.parse().ok()?))
+    })
+}
+
+/// Whether an event log was requested
+pub fn enabled() -> bool {
+    log_file().is_some()
+}
+
+/// Append one event line `kind\tfields` to the log (one `write` under a lock)
+pub fn event(kind: &str, fields: &str) {
+    if let Some(file) = log_file() {
+        let line = format!("{kind}\t{fields}\n");
+        let mut file = file.lock().unwrap();
+        file.write_all(line.as_bytes())
+            .expect("SKA_VERIF_LOG write failed");
+    }
+}
+
+fn mix(mut x: u64) -> u64 {
+    x = (x ^ (x >> 30)).wrapping_mul(0xBF58_476D_1CE4_E5B9);
+    x = (x ^ (x >> 27)).wrapping_mul(0x94D0_49BB_1331_11EB);
+    x ^ (x >> 31)
+}
+
+/// A point between critical sections of a parallel region: the start of a work
+/// item, or just before a lock is taken. Records `(site, item, thread, seq)`
+/// and optionally sleeps (see module documentation).
+pub fn point(site: &'static str, item: u64) {
+    let log = log_file().is_some();
+    let jit = jitter();
+    if !log && jit.is_none() {
+        return;
+    }
+    if let Some((seed, max_us)) = jit {
+        if *max_us > 0 {
+            let mut h = mix(*seed);
+            for b in site.bytes() {
+                h = mix(h ^ b as u64);
+            }
+            h = mix(h ^ item);
+            std::thread::sleep(std::time::Duration::from_micros(h % (*max_us + 1)));
+        }
+    }
+    if log {
+        let seq = SEQ.fetch_add(1, Ordering::SeqCst);
+        let thread = match rayon::current_thread_index() {
+            Some(idx) => idx as i64,
+            None => -1,
+        };
+        event("P", &format!("{site}\t{item}\t{thread}\t{seq}"));
+    }
+}
